@@ -8,21 +8,22 @@ variable (F : NumFmt)
 
 /-! ## which cells the round trip covers -/
 
-/-- value kinds that survive: everything except an unresolved lazy value and a rich text without runs -/
+/-- value kinds that survive: everything except a rich text without runs (an unresolved lazy value survives as
+    the typed value `write_to` resolves it to, fix 6; a rich text under a formula survives since fix 5) -/
 def rawOK : RawValue F.Num → Bool
-  | .lazy _ => false
   | .rich rs => !rs.isEmpty
   | _ => true
 
-def isRich : RawValue F.Num → Bool
-  | .rich _ => true
-  | _ => false
-
-/-- … and a rich text may not sit under a formula (it is then written as plain text) -/
-def valueOK (raw : RawValue F.Num) (fo : Option Text) : Bool := rawOK F raw && !(fo.isSome && isRich F raw)
+/-- resolving keeps a covered value covered: `guess_typed_data` never returns rich text -/
+theorem rawOK_resolveRaw {r : RawValue F.Num} (h : rawOK F r = true) : rawOK F (resolveRaw F r) = true := by
+  cases r with
+  | lazy s =>
+    show rawOK F (guess F s) = true
+    rcases guess_cases F s with h | ⟨_, h⟩ | ⟨_, h⟩ | ⟨_, h⟩ | h <;> rw [h] <;> rfl
+  | _ => exact h
 
 def cellOK (c : Cell F.Num) : Bool :=
-  decide (1 ≤ c.col ∧ c.col ≤ 16384 ∧ 1 ≤ c.row ∧ c.row ≤ 1048576) && valueOK F c.raw c.formula
+  decide (1 ≤ c.col ∧ c.col ≤ 16384 ∧ 1 ≤ c.row ∧ c.row ≤ 1048576) && rawOK F c.raw
 
 /-- `sst` agrees with `tbl` on every index of `tbl` -/
 def Extends (sst tbl : Table) : Prop := ∀ (i : Nat) (it : Item), tbl[i]? = some it → sst[i]? = some it
@@ -54,7 +55,7 @@ theorem sBranch (tbl : Table) (it : Item) (raw : RawValue F.Num) (fo : Option Te
 
 /-- value level: what `write_to` puts into `t=` and `<v>` for a value is read back as that value -/
 theorem writeV_readV (hF : F.Sound) (tbl : Table) (raw : RawValue F.Num) (fo : Option Text)
-    (hv : valueOK F raw fo = true) (hne : ¬ (raw.isEmpty = true ∧ fo = none)) :
+    (hv : rawOK F raw = true) (hnl : raw.isLazy = false) (hne : ¬ (raw.isEmpty = true ∧ fo = none)) :
     (∃ ext, (writeV F tbl (dataTypeOf F raw fo) raw).1 = tbl ++ ext ∧ ∀ it ∈ ext, ItemOK it) ∧
     ∀ sst : Table, sst.length < 18446744073709551616 →
       Extends sst (writeV F tbl (dataTypeOf F raw fo) raw).1 →
@@ -87,22 +88,20 @@ theorem writeV_readV (hF : F.Sound) (tbl : Table) (raw : RawValue F.Num) (fo : O
       simp [writeV, RawValue.isEmpty, dataTypeOf, readV, tAttrOf, tS, tB, tSTR, tE, valueText,
         readText_false_partialEscape, applyV]
   | rich rs =>
-    cases fo with
-    | some f => simp [valueOK, isRich] at hv
-    | none =>
-      have hrs : rs ≠ [] := by
-        intro e; subst e; simp [valueOK, rawOK] at hv
-      have e : writeV F tbl (dataTypeOf F (.rich rs) none) (.rich rs)
-          = ((intern tbl (itemOf F (.rich rs))).1, .text (escape (decDigits (intern tbl (itemOf F (.rich rs))).2))) := by
-        simp [writeV, RawValue.isEmpty, dataTypeOf, RawValue.dataType]
-      rw [e]
-      obtain ⟨⟨ext, he, hx⟩, _⟩ := intern_spec tbl (itemOf F (.rich rs : RawValue F.Num))
-      refine ⟨⟨ext, he, ?_⟩, ?_⟩
-      · intro it hit; rw [hx it hit]; simp [ItemOK, itemOf, getRich, hrs]
-      · intro sst hlen hext
-        have := sBranch F tbl (itemOf F (.rich rs)) .empty none sst hlen hext
-        simp only [readV, dataTypeOf, RawValue.dataType, tAttrOf, tS, tB, tSTR, tE] at this ⊢
-        simpa [itemOf, getText, getRich, setSharedStringItem] using this
+    have hrs : rs ≠ [] := by
+      intro e; subst e; simp [rawOK] at hv
+    have hd : dataTypeOf F (.rich rs) fo = tS := by cases fo <;> rfl
+    have e : writeV F tbl tS (.rich rs)
+        = ((intern tbl (itemOf F (.rich rs))).1, .text (escape (decDigits (intern tbl (itemOf F (.rich rs))).2))) := by
+      simp [writeV, RawValue.isEmpty]
+    rw [hd, e]
+    obtain ⟨⟨ext, he, hx⟩, _⟩ := intern_spec tbl (itemOf F (.rich rs : RawValue F.Num))
+    refine ⟨⟨ext, he, ?_⟩, ?_⟩
+    · intro it hit; rw [hx it hit]; simp [ItemOK, itemOf, getRich, hrs]
+    · intro sst hlen hext
+      have := sBranch F tbl (itemOf F (.rich rs)) .empty fo sst hlen hext
+      simp only [readV, tAttrOf, tS, tB, tSTR, tE] at this ⊢
+      simpa [itemOf, getText, getRich, setSharedStringItem] using this
   | num n =>
     have hd : dataTypeOf F (.num n) fo = tN := by cases fo <;> rfl
     rw [hd]
@@ -127,24 +126,25 @@ theorem writeV_readV (hF : F.Sound) (tbl : Table) (raw : RawValue F.Num) (fo : O
     intro sst _ _
     have hr := readText_true_escape e.text (errText_ne_nil e) (errText_no_ws e)
     simp [writeV, RawValue.isEmpty, readV, tAttrOf, tS, tB, tSTR, tE, valueText, hr, applyV, guess_errText F e]
-  | lazy s => simp [valueOK, rawOK] at hv
+  | lazy s => simp [RawValue.isLazy] at hnl
 
-/-- cell level: a blank unstyled cell is not written; any other covered cell is written as one `<c>`
-    that the reader turns back into the same cell (coordinate, kind, value, formula, styled), whatever
-    later cells add to the string table -/
-theorem writeTo_readCell (hF : F.Sound) (tbl : Table) (c : Cell F.Num) (hc : cellOK F c = true) :
-    ∃ tbl' ox, writeTo F tbl c = some (tbl', ox) ∧
+/-- cell level, the body of `write_to` (value not lazy): a blank unstyled cell is not written; any other
+    covered cell is written as one `<c>` that the reader turns back into the same cell (coordinate, kind, value,
+    formula, styled), whatever later cells add to the string table -/
+theorem writeCore_readCell (hF : F.Sound) (tbl : Table) (c : Cell F.Num) (hc : cellOK F c = true)
+    (hnl : c.raw.isLazy = false) :
+    ∃ tbl' ox, writeCore F tbl c = some (tbl', ox) ∧
       (∃ ext, tbl' = tbl ++ ext ∧ ∀ it ∈ ext, ItemOK it) ∧
-      (blankUnstyled F c = true → ox = none) ∧
-      (blankUnstyled F c = false → ∃ x, ox = some x ∧
+      (blankCore F c = true → ox = none) ∧
+      (blankCore F c = false → ∃ x, ox = some x ∧
         ∀ sst : Table, sst.length < 18446744073709551616 → Extends sst tbl' → readCell F sst x = some c) := by
   obtain ⟨col, row, raw, fo, styled⟩ := c
   simp only [cellOK, Bool.and_eq_true, decide_eq_true_eq] at hc
   obtain ⟨⟨hc1, hc2, hr1, hr2⟩, hv⟩ := hc
   obtain ⟨hco1, hco2⟩ := Umya.Thm.C17.C17_coord col row false false ⟨hc1, by omega⟩ (by omega)
-  by_cases hb : blankUnstyled F { col := col, row := row, raw := raw, formula := fo, styled := styled } = true
-  · refine ⟨tbl, none, by simp [writeTo, hb], ⟨[], by simp, by simp⟩, fun _ => rfl, fun h => by simp [hb] at h⟩
-  · have hb' : blankUnstyled F { col := col, row := row, raw := raw, formula := fo, styled := styled } = false := by
+  by_cases hb : blankCore F { col := col, row := row, raw := raw, formula := fo, styled := styled } = true
+  · refine ⟨tbl, none, by simp [writeCore, hb], ⟨[], by simp, by simp⟩, fun _ => rfl, fun h => by simp [hb] at h⟩
+  · have hb' : blankCore F { col := col, row := row, raw := raw, formula := fo, styled := styled } = false := by
       simpa using hb
     by_cases he : raw.isEmpty = true ∧ fo = none
     · -- `<c r= s= />`
@@ -153,20 +153,35 @@ theorem writeTo_readCell (hF : F.Sound) (tbl : Table) (c : Cell F.Num) (hc : cel
       refine ⟨tbl, some { ref := coordinateFromIndexWithLock col row false false,
                           t := tAttrOf (dataTypeCrate F { col := col, row := row, raw := raw, formula := none, styled := styled }),
                           styled := styled }, ?_, ⟨[], by simp, by simp⟩, fun h => by simp [hb'] at h, fun _ => ⟨_, rfl, ?_⟩⟩
-      · simp [writeTo, hb', hco1, he1]
+      · simp [writeCore, hb', hco1, he1]
       · intro sst _ _
         have hraw : raw = .empty := by cases raw <;> simp [RawValue.isEmpty] at he1 ⊢
         subst hraw
         simp [readCell, hco2, readF, readV, readIs]
-    · obtain ⟨⟨ext, hext, hok⟩, hread⟩ := writeV_readV F hF tbl raw fo hv he
+    · obtain ⟨⟨ext, hext, hok⟩, hread⟩ := writeV_readV F hF tbl raw fo hv hnl he
       refine ⟨(writeV F tbl (dataTypeOf F raw fo) raw).1,
         some { ref := coordinateFromIndexWithLock col row false false, t := tAttrOf (dataTypeOf F raw fo), styled := styled,
                f := fo.map partialEscape, v := (writeV F tbl (dataTypeOf F raw fo) raw).2 }, ?_, ⟨ext, hext, hok⟩,
         fun h => by simp [hb'] at h, fun _ => ⟨_, rfl, ?_⟩⟩
-      · simp [writeTo, hb', hco1, dataTypeCrate]
+      · simp [writeCore, hb', hco1, dataTypeCrate]
         intro h1 h2; exact absurd ⟨h1, h2⟩ he
       · intro sst hlen hx
         simp [readCell, hco2, readF_write, hread sst hlen hx, readIs]
+
+theorem cellOK_resolved {c : Cell F.Num} (hc : cellOK F c = true) : cellOK F (Cell.resolved F c) = true := by
+  simp only [cellOK, Bool.and_eq_true, decide_eq_true_eq] at hc ⊢
+  exact ⟨hc.1, rawOK_resolveRaw F hc.2⟩
+
+/-- cell level, `Cell::write_to` itself: what is written, and read back, is the cell with its value resolved
+    (`Cell.resolved`: a lazy value as the typed value it stands for, every other cell unchanged) -/
+theorem writeTo_readCell (hF : F.Sound) (tbl : Table) (c : Cell F.Num) (hc : cellOK F c = true) :
+    ∃ tbl' ox, writeTo F tbl c = some (tbl', ox) ∧
+      (∃ ext, tbl' = tbl ++ ext ∧ ∀ it ∈ ext, ItemOK it) ∧
+      (blankUnstyled F c = true → ox = none) ∧
+      (blankUnstyled F c = false → ∃ x, ox = some x ∧
+        ∀ sst : Table, sst.length < 18446744073709551616 → Extends sst tbl' →
+          readCell F sst x = some (Cell.resolved F c)) :=
+  writeCore_readCell F hF tbl (Cell.resolved F c) (cellOK_resolved F hc) (resolveRaw_not_lazy F c.raw)
 
 end
 
